@@ -22,6 +22,8 @@ pub struct HookState {
     pub stop_at: i64,           // the k-th poll (0-based) observes a stop; -1 = never
     pub extra_every: u64,       // extra polls at node counts n with n % extra_every == 0 (0 = none)
     pub npolls: u64,
+    pub last_poll_nodes: u64,   // node counter at the most recent poll (0 before the first)
+    pub max_gap: u64,           // largest number of nodes between consecutive polls so far
     pub stop_raised: bool,
     pub bypass_tt: bool,
     pub intercept: bool,        // on_search_entry returns without searching
@@ -33,7 +35,7 @@ pub struct HookState {
 
 thread_local! {
     static HS: RefCell<HookState> = RefCell::new(HookState {
-        active: false, trace: false, stop_at: -1, extra_every: 0, npolls: 0, stop_raised: false,
+        active: false, trace: false, stop_at: -1, extra_every: 0, npolls: 0, last_poll_nodes: 0, max_gap: 0, stop_raised: false,
         bypass_tt: false, intercept: false, entry: None, events: String::new(), nevents: 0, end: String::new() });
     static SCRIPT: RefCell<Option<Script>> = RefCell::new(None);
 }
@@ -72,6 +74,8 @@ pub fn on_search_end(e: &SearchEnv) {
     write!(s, "END ply={} rep={} stopping={} nodes={} pvlen={} pv=", e.ply, e.repetition_table.index, e.stopping as u8, e.nodes, e.pv_lengths[0]).unwrap();
     for i in 0..e.pv_lengths[0].min(64) { write!(s, "{},", move_fields(&e.pv_table[0][i])).unwrap(); }
     write!(s, " best={}", move_fields(&e.pv_table[0][0])).unwrap();
+    let (lp, mg) = HS.with(|h| { let h = h.borrow(); (h.last_poll_nodes, h.max_gap) });
+    write!(s, " maxgap={}", mg.max((e.nodes as u64).saturating_sub(lp))).unwrap();
     HS.with(|h| h.borrow_mut().end = s);
 }
 
@@ -111,6 +115,9 @@ pub fn on_poll(nodes: u64, stopping: bool) -> Option<bool> {
         if !h.active { return None; }
         let k = h.npolls;
         h.npolls += 1;
+        let gap = nodes.saturating_sub(h.last_poll_nodes);
+        if gap > h.max_gap { h.max_gap = gap; }
+        h.last_poll_nodes = nodes;
         let stop = h.stop_at >= 0 && (k as i64) >= h.stop_at;
         if h.trace {
             let line = format!("POLL {} n={} stop={}", k, nodes, stop as u8);
@@ -388,7 +395,7 @@ fn do_searchseq(t: &[&str], tt: &mut TranspositionTable) -> String {
         let before = game_fields(&game);
         let rep_before: Vec<u64> = rep.table[..rep.index].to_vec();
         HS.with(|h| { let mut h = h.borrow_mut();
-            h.active = true; h.trace = trace > 0; h.stop_at = stop_at; h.extra_every = extra; h.npolls = 0; h.stop_raised = false;
+            h.active = true; h.trace = trace > 0; h.stop_at = stop_at; h.extra_every = extra; h.npolls = 0; h.last_poll_nodes = 0; h.max_gap = 0; h.stop_raised = false;
             h.bypass_tt = bypass; h.intercept = false; h.events.clear(); h.nevents = 0; h.end.clear(); });
         let io = IoWrapper::verif_detached();
         let (text, ok) = capture_stdout(|| { search(&mut game, depth, -1, &io, tt, &mut rep); });
